@@ -135,7 +135,7 @@ _add3("C20", "expandMacros and expandEnvironment descend into the children of ev
 def _add4(id, text_extra):
     tech, text, note, ref = CLAIMED[id]
     CLAIMED[id] = (tech, text + " Third round: " + text_extra, note, ref + ", §R.9")
-_E = "in the functions its rules depend on, the error of every step is read before it is overwritten or the function returns (E1), a failed step is used or refused and not treated as done (E2), a nil error is not handed on as the failure (E3), and the value of a failed comma-ok assertion / lookup / receive is not used (E4)"
+_E = "in the functions its rules depend on, the error of every step is read before it is overwritten or the function returns (E1), a failed step is used or refused and not treated as done (E2), a nil error is not handed on as the failure (E3), the value of a failed comma-ok assertion / lookup / receive is not used (E4), and every effect – store to a struct field, call into maddy / the operating system / the synchronisation and mail libraries, channel send – that every successful path performed in the reference tree is still performed on every successful path (E5, reference inventory checker/mustpass_index.json, DESIGN.md §R.12)"
 for _id in list(CLAIMED):
     _add4(_id, _E + ".")
 def _add5(id, text_extra):
@@ -154,18 +154,20 @@ _add5("C19", "The pool lock is balanced (L1); a receive that reports 'closed' yi
 def _add6(id, text_extra):
     tech, text, note, ref = CLAIMED[id]
     CLAIMED[id] = (tech, text + " Fourth round: " + text_extra, note, ref + ", §R.11")
-_add6("C01", "what smtpconn.C.Close returns never derives from the QUIT command's error (a failed QUIT after the final dot is not a failed delivery) (R6).")
+_add6("C01", "what smtpconn.C.Close returns never derives from the QUIT command's error (a failed QUIT after the final dot is not a failed delivery) (R6); the maps of the spooled record that tryDelivery writes are non-nil in every record that can be read back, omitempty tags included (C02.R7 evaluated as R7).")
 _add6("C02", "a spool file that is synced is written directly or through a buffering writer flushed – not by defer – on every path before that Sync (R1c).")
-_add6("C04", "a check / modifier group obtained from a directive is merged into a block element by element, its slice is never kept (named groups are shared) (R5b); the two lookup-key functions return only IDNA-decoded, NFC-normalised, lower-cased values and are pure (C17.R3/R4 evaluated as R6).")
-_add6("C05", "what PrepareDomain / PrepareConn leave in a policy's per-message object for CheckMX / CheckConn is assigned afresh on every call; a skipping path is guarded by configuration only (R9).")
+_add6("C04", "a check / modifier group obtained from a directive is merged into a block element by element, its slice is never kept (named groups are shared) (R5b); the two lookup-key functions return only IDNA-decoded, NFC-normalised, lower-cased values, are pure and give the decoder an ASCII-lowered name (C17.R3/R4/R4c evaluated as R6); the session state Rcpt consults before it starts a deferred delivery is assigned by every accepted MAIL (R7); a recipient block is accepted only with a target or a reject reply (R8); table.regexp reports a matching key as found also without a replacement (R9).")
+_add6("C05", "what PrepareDomain / PrepareConn leave in a policy's per-message object for CheckMX / CheckConn is assigned afresh on every call; a skipping path is guarded by configuration only (R9); the DANE verdict that raises a connection to 'authenticated' is C13's whole rule set (R7b); no delivery target copies the message metadata at Start, so the quarantine verdict reaches the remote target through the queue (C06.R5 as R8b).")
 _add6("C06", "the stage functions record their stage for replay on every path (checkConnSender: sender and mailFromReceived before any return; checkRcpt: the recipient on every path after the states were obtained) (R4d); no DeliveryTarget.Start copies the message metadata – the quarantine verdict is written to that object later (R5).")
 _add6("C07", "in internal/dmarc two computed strings are never compared byte-wise and no computed string is used as a prefix / suffix pattern; isAligned answers true only as EqualFold(from, auth) or EqualFold(org(from), org(auth)) (R7).")
-_add6("C09", "the pipeline's original-recipient table is written under the variable handed to the target whenever it differs from the client's spelling (C18.R8 evaluated as K7).")
+_add6("C09", "the pipeline's original-recipient table is written under the variable handed to the target whenever it differs from the client's spelling, and is created only where there is none – never replaced (C18.R8 evaluated as K7).")
 _add6("C10", "queueDelivery.AddRcpt accepts only after appending the unmodified parameter to the pending list (R5); partialError.SetStatus files a failure under the key it was called with (R6).")
 _add6("C11", "the constructor handed to a keyed limiter table builds its result from scratch on every call: of captured variables it only ranges over, measures, indexes or calls the configured constructors (R8).")
 _add6("C12", "the entry that is dispatched is chosen only by the scan over the whole list and every timer is armed with that entry's remaining time (R2); the scheduler's stopped flag is read and written only by the scheduler's own methods (R4b).")
+_add6("C15", "a lazily created check state is asked about the sender before it is registered, and the stage functions record the sender stage for that replay on every path (C06.R4 / R4d evaluated as R8).")
+_add6("C18", "the original-recipient table is created only where there is none and never replaced (R8).")
 _add6("C14", "the hash functions (signature of the compute / verify registries) never assign, re-slice, index or transform their password parameter (R3d); user-name keys that are parameters of new helpers are judged at the helpers' call sites.")
-_add6("C17", "in framework/address and framework/dns no byte of a string is converted to a rune or a string; character copies range over the string (R7).")
+_add6("C17", "in framework/address and framework/dns no byte of a string is converted to a rune or a string; character copies range over the string (R7); the domain handed to idna.ToUnicode by the key functions has its ASCII letters lowered first (R4c, assumption A3 about the decoder demonstrated in findings/).")
 _add6("C19", "every send / receive on a bucket channel is a case of a select with a default branch, a range over a bucket follows its close in the same function (R8); implementations of Conn.Usable close nothing (R9).")
 for _id in list(CLAIMED):
     tech, text, note, ref = CLAIMED[_id]
